@@ -151,7 +151,7 @@ def gen_cases(rng, tier):
                             math.nextafter((x + nx) / 2, -1e9) if nx == nx and not math.isinf(nx) else x, x * (1 + 2 ** -30)])
         else: f = x
         f = rng.choice([f, f, f, 65504.0, 65519.99, 65520.0, 1e10, -1e10, 1e300, float('inf'), float('-inf'), float('nan'), -0.0, 0.0, 5e-324, 464.0, 464.25, 61440.0, 232.0, 233.0])
-        yield {'op': 'encode_float', 'fmt': name, 'f': f.hex() if f == f else 'nan', 'mode': rng.choice(['saturate', 'overflow']), 'scale': rng.choice([None, None, None, 2, 0.5, 2 ** -3]),
+        yield {'op': 'encode_float', 'fmt': name, 'f': f.hex() if f == f else 'nan', 'mode': rng.choice(['saturate', 'overflow']), 'scale': rng.choice([None, None, None, 2, 0.5, 2 ** -3, 3, 49, 0.1]),
                'route': rng.choice(['kw', 'build', 'token', 'pack', 'setattr'])}
     for _ in range(N // 2):
         k = rng.choice(['mxint', 'e8m0mxfp', 'bfloat', 'bfloatle'])
@@ -166,6 +166,21 @@ def gen_cases(rng, tier):
         else:
             f = rng.choice([rng.uniform(-1e5, 1e5), 1.0078125 - 1e-9, 1.0, 3.38953139e38, 3.4e38, 1e39, -1e39, float('inf'), float('nan'), 1e-40, 0.0, -0.0, struct.unpack('>f', rng.getrandbits(32).to_bytes(4, 'big'))[0]])
         yield {'op': 'other', 'fmt': k, 'f': f.hex() if f == f else 'nan'}
+    for _ in range(N // 3):
+        sc = rng.choice([3, 49, 0.1, 10, 0.001, 7.5, 2, 0.25])
+        k = rng.choice(['mxint', 'e8m0mxfp'])
+        if k == 'mxint':
+            q = rng.choice([(rng.randrange(-128, 128) + 0.5) / 64, rng.randrange(-128, 128) / 64, rng.uniform(-2, 2)])
+        else:
+            q = 2.0 ** rng.randrange(-120, 121)
+        f = rng.choice([q * sc, q * sc, math.nextafter(q * sc, math.inf), math.nextafter(q * sc, -math.inf)])
+        yield {'op': 'other', 'fmt': k, 'f': f.hex(), 'scale': sc}
+    # bfloat: around the largest float32 (finite values above it still round to it; beyond the rounding boundary: infinity)
+    FMAX = 3.4028234663852886e38
+    for f in [FMAX, math.nextafter(FMAX, math.inf), 3.4028235e38, 3.4028235677973362e38, 3.4028235677973366e38, math.nextafter(3.4028235677973366e38, math.inf), 3.5e38,
+              -FMAX, -math.nextafter(FMAX, math.inf), -3.4028235e38, -3.4028235677973362e38, -3.4028235677973366e38, 65504.0, 65520.0, 1e308]:
+        for k in ('bfloat', 'bfloatle'):
+            yield {'op': 'other', 'fmt': k, 'f': f.hex()}
     for c in range(256):
         yield {'op': 'decode_other', 'fmt': 'e8m0mxfp', 'code': c}; yield {'op': 'decode_other', 'fmt': 'mxint', 'code': c}
     for _ in range(300 if tier == 'quick' else 5000):
@@ -217,6 +232,9 @@ def run_impl(c):
     if op == 'other':
         x = float.fromhex(c['f']) if c['f'] != 'nan' else float('nan')
         def f():
+            if c.get('scale') is not None:
+                s = Dtype(name, scale=c['scale']).build(x)          # a scaled dtype encodes value / scale
+                return [s.bin, None]
             s = Bits(**{name: x})
             return [s.bin, xcanon(getattr(s, name))]
         return attempt(f)
@@ -265,6 +283,7 @@ def oracle(c, obs):
         return None if obs == ('ok', exp) else f"{name} encoding of {c['f']} (scale {c['scale']}, via {c['route']}, {c['mode']}) is {obs}, expected {exp:#x} (half value {x})"
     if op == 'other':
         f = float.fromhex(c['f']) if c['f'] != 'nan' else float('nan')
+        if c.get('scale') is not None and f == f: f = f / c['scale']
         if name == 'mxint':
             if f != f: return None if obs == ('err', 'ValueError') else f"mxint of NaN must raise, got {obs}"
             if math.isinf(f): v = 127 if f > 0 else -128
@@ -320,12 +339,14 @@ def coq_check(c, obs):
         return f"(float_to_int {t} {cl} {cpyfloat(f)} =? {obs[1]})"
     if c['op'] == 'other' and c['fmt'] == 'mxint':
         f = float.fromhex(c['f']) if c['f'] != 'nan' else float('nan')
+        if c.get('scale') is not None and f == f: f = f / c['scale']       # the float division the scaled dtype performs; the model encodes its result
         if obs[0] == 'ok':
             v = int(obs[1][0], 2); v = v - 256 if v >= 128 else v
             return f"opt_eqb Z.eqb (mxint_spec {cpyfloat(f)}) (Some {cz(v)})"
         return f"opt_eqb Z.eqb (mxint_spec {cpyfloat(f)}) None"
     if c['op'] == 'other' and c['fmt'] == 'e8m0mxfp':
         f = float.fromhex(c['f']) if c['f'] != 'nan' else float('nan')
+        if c.get('scale') is not None and f == f: f = f / c['scale']
         exp = f"(Some {int(obs[1][0], 2)})" if obs[0] == 'ok' else 'None'
         return f"opt_eqb Z.eqb (e8m0_encode {cpyfloat(f)}) {exp}"
     return None
